@@ -74,10 +74,12 @@ def sgrid_structures(tier):
         for pz in PADS:
             out.append({"part": "sgrid", "topo": "2d+v", "pads": ["low", "high", pz], "space": space})
             out.append({"part": "sgrid", "topo": "3d", "pads": ["both", "none", pz], "space": space})
+    for conv in ("SGRID-0.3", "CF-1.8 SGRID-0.3", "CF-1.8 ACDD-1.3 SGRID-0.3", "sgrid-0.3, CF-1.6", "Sgrid-0.3", "SGRID-0.3 CF-1.8", "key:conventions"):
+        out.append({"part": "sgrid", "topo": "2d", "pads": ["low", "both"], "space": True, "conventions": conv})
     out.append({"part": "sgrid", "topo": "3d", "pads": ["high", "low", "both"], "space": True, "names": "alt"})
     out.append({"part": "sgrid", "topo": "2d", "pads": ["none", "both"], "space": False, "names": "alt"})
     for s in out:
-        s["sid"] = f"sgrid;{s['topo']};pads={'/'.join(s['pads'])};space={s['space']};names={s.get('names', 'std')}"
+        s["sid"] = f"sgrid;{s['topo']};pads={'/'.join(s['pads'])};space={s['space']};names={s.get('names', 'std')}" + (f";conventions={s['conventions']}" if s.get("conventions") else "")
     return out
 
 
@@ -140,8 +142,11 @@ def sgrid_dataset(w, s):
         layout[AXN[i]] = {"center": cells[i], pos: nodes[i]}
         dims[cells[i]] = n
         dims[nodes[i]] = spec.len_pos(pos, n) if w.native else symx.mk_int(spec.len_pos(pos, zint(n)))
-    ds = w.dataset(dims, coords={d: (d,) for d in dims}, data_vars={"grid": ()}, var_attrs={"grid": gat}, attrs={"Conventions": "CF-1.6, SGRID-0.3"},
-                   coord_attrs={d: {} for d in dims})
+    conv = s.get("conventions") or "CF-1.6, SGRID-0.3"
+    dattrs = {"conventions": "CF-1.6, SGRID-0.3"} if conv == "key:conventions" else {"Conventions": conv}
+    # stale COMODO attributes on the dimensions must be ignored when SGRID is declared
+    cat = {d: ({"axis": "X", "c_grid_axis_shift": -0.5} if (s.get("conventions") and d == nodes[0]) else ({"axis": "X"} if (s.get("conventions") and d == cells[0]) else {})) for d in dims}
+    ds = w.dataset(dims, coords={d: (d,) for d in dims}, data_vars={"grid": ()}, var_attrs={"grid": gat}, attrs=dattrs, coord_attrs=cat)
     return ds, layout
 
 
